@@ -1,5 +1,5 @@
 from .. import common, mir
-from ..rules import c15
+from ..rules import c15, c04
 
 
 def run(tier, replay=None):
@@ -13,6 +13,9 @@ def run(tier, replay=None):
         scans = c15.run_lookup_schema(rep, crate, cfg)
         if tab is not None:
             c15.run_ranges(rep, crate, cfg, scans, tab)
+        # 'the generated tuple equals RFC 6330's Tuple[K', X]': the template rules shared with C04
+        c04.run_rand(rep, crate, cfg)
+        c04.run_tuple(rep, crate, cfg)
     rep.trusted = ["rustc front end / const evaluator / MIR construction (nightly)",
                    "sa/absint.py transfer functions and sa/models.py library models",
                    "table relations used as facts are exactly those checked row by row by C15-R1 in the same run"]
@@ -24,5 +27,4 @@ def run(tier, replay=None):
         "generator, Enc, ESI/ISI arithmetic: tuple postconditions and every MIR overflow/bounds/div assert, explicit "
         "panic and narrowing cast in the cone is discharged for all (K', X), in each build configuration analysed.",
         "./check C15 %s" % tier,
-        undecided=["that Tuple equals the RFC's Tuple value-for-value is the template rule C04-R3 (same MIR, term matching)",
-                   "in-bounds-ness of SymbolSlab::get (slab holds L symbols) is a data-structure invariant outside this cone"])
+        undecided=["in-bounds-ness of SymbolSlab::get (slab holds L symbols) is a data-structure invariant outside this cone"])
